@@ -50,6 +50,7 @@ class Plane:
         self.sim = None
 
     def _solver_helper(self, model, solver, solver_options):
+        model.set_structure()      # as the real _solver_helper does: a model that is not square is refused here
         k = self.calls
         self.calls += 1
         self.solves.append(self.wn.sim_time)
